@@ -147,6 +147,14 @@ def run(pid, tier):
         if j % 3 == 0 and j + 1 < len(behs):
             two = [abstract_session(b, rng, 0), abstract_session(behs[j + 1], rng, 1)]
             recs.append(run_export(f"d{j}", two, opts, rng, directory=(j % 6 == 0)))
+        if j % 7 == 0 and j + 2 < len(behs):
+            # three sessions, the third from the same batch as the first (a batch's sessions need not be contiguous in the
+            # file), sometimes with a session that carries no contest at all (a blank sheet)
+            three = [abstract_session(b, rng, 0), abstract_session(behs[j + 1], rng, 1), abstract_session(behs[j + 2], rng, 2)]
+            three[2].update(tab=three[0]["tab"], batch=three[0]["batch"], rec="X")
+            if j % 14 == 0:
+                three[rng.randrange(3)].update(orig=[], modi=[])
+            recs.append(run_export(f"t{j}", three, opts, rng))
     rejects, stats = core.validate_traces("Trace_DominionImport", recs,
                                           cfg_consts='CONSTANTS\n')
     rep.add_trace_stats("Trace_DominionImport", stats)
